@@ -70,10 +70,11 @@ ModTokens == {Tok(106, X, X, X, m) : m \in Modifiers}
 
 \* <part of day> <end> <joiner> <end>, each end a clock time with or without a written date: the shapes on which
 \* rulePODInterval meets intervals built by ruleTODTOD / ruleDateTimeDateTime / ruleDateInterval
+\* (thorough, K = 7: six clocks and two dates - eight clocks x three dates did not finish within an hour)
 PRClocks == IF K <= 6 THEN {Tok(128, 8, X, X, "X"), Tok(128, 13, 0, X, "X"), Tok(128, 1, 0, X, "X"), Tok(128, 0, 0, X, "X")}
-            ELSE {Tok(128, 8, X, X, "X"), Tok(128, 8, 0, X, "X"), Tok(128, 13, 0, X, "X"), Tok(128, 11, 30, X, "X"), Tok(128, 1, X, X, "X"),
-                  Tok(128, 12, 0, X, "X"), Tok(128, 0, 0, X, "X"), Tok(128, 23, 59, X, "X")}
-PRDates == IF K <= 6 THEN {Tok(126, 1, 1, 2020, "X"), T0(114)} ELSE {Tok(126, 1, 1, 2020, "X"), Tok(126, 2, 1, 2020, "X"), T0(114)}
+            ELSE {Tok(128, 8, X, X, "X"), Tok(128, 13, 0, X, "X"), Tok(128, 11, 30, X, "X"), Tok(128, 1, X, X, "X"),
+                  Tok(128, 12, 0, X, "X"), Tok(128, 0, 0, X, "X")}
+PRDates == {Tok(126, 1, 1, 2020, "X"), T0(114)}
 PREnds == {<<c>> : c \in PRClocks} \cup {<<d, c>> : d \in PRDates, c \in PRClocks}
 PodRangeSeqs == {<<p>> \o a \o <<T0(136)>> \o b : p \in PodTokens, a \in PREnds, b \in PREnds}
 \* the same ranges without a part of day, optionally introduced by from/between (101), followed by a date or by "for <duration>":
